@@ -477,7 +477,7 @@ func (x *Exec) point(p pending) {
 	}
 	next := x.schedule(t, true)
 	if x.stepTrace && next != nil {
-		x.res.StepTrace = append(x.res.StepTrace, fmt.Sprintf("%-14s %-12s %s", next.name, next.pend.kind.String(), next.pendLoc))
+		x.res.StepTrace = append(x.res.StepTrace, fmt.Sprintf("t=%-9d %-14s %-12s %s", x.now, next.name, next.pend.kind.String(), next.pendLoc))
 	}
 	if next == t {
 		if p.kind != OpSpin && p.kind != OpYield {
@@ -892,11 +892,28 @@ func GoNamed(name string, fn func()) {
 		return
 	}
 	if name == "go" {
-		if _, file, line, ok := runtime.Caller(2); ok {
-			if i := strings.LastIndexByte(file, '/'); i >= 0 {
-				file = file[i+1:]
+		// named after the function containing the go statement (stable when unrelated lines move)
+		if pc, _, _, ok := runtime.Caller(2); ok {
+			if f := runtime.FuncForPC(pc); f != nil {
+				fn := f.Name()
+				if i := strings.LastIndexByte(fn, '/'); i >= 0 {
+					fn = fn[i+1:]
+				}
+				if i := strings.Index(fn, "[...]"); i >= 0 {
+					fn = fn[:i] + fn[i+5:]
+				}
+				// generic code is instantiated inside its caller ("checks.f.func1.SubscribeOn.1.2"):
+				// keep the innermost named function and the closure path below it
+				parts := strings.Split(fn, ".")
+				start := 0
+				for i, p := range parts {
+					if p == "" || strings.HasPrefix(p, "func") || (p[0] >= '0' && p[0] <= '9') {
+						continue
+					}
+					start = i
+				}
+				name = "go@" + strings.Join(parts[start:], ".")
 			}
-			name = fmt.Sprintf("go@%s:%d", file, line)
 		}
 	}
 	x.newThread(name, fn, pending{kind: OpStart})
